@@ -299,8 +299,14 @@ func (k Keeper) ComputeConsumerNextValSet(
 		}
 	}
 
-	// need to use the bondedValidators, not activeValidators, here since the chain might be opt-in and allow inactive vals
-	nextValidators, err := k.ComputeNextValidators(ctx, consumerId, bondedValidators, powerShapingParameters, minPower)
+	// need to use the bondedValidators, not activeValidators, here since the chain might be opt-in and allow inactive vals;
+	// otherwise only the provider's active validators are candidates: truncating the bonded validators sorted by
+	// tokens (see ComputeNextValidators) does not select the active set when validators have equal voting power
+	candidateValidators := bondedValidators
+	if !powerShapingParameters.AllowInactiveVals {
+		candidateValidators = activeValidators
+	}
+	nextValidators, err := k.ComputeNextValidators(ctx, consumerId, candidateValidators, powerShapingParameters, minPower)
 	if err != nil {
 		return []abci.ValidatorUpdate{},
 			fmt.Errorf("computing next validators, consumerId(%s), minPower(%d): %w", consumerId, minPower, err)
